@@ -13,13 +13,38 @@ def load_known():
     return json.load(open(p)).get('findings', [])
 
 
+CRASHES = []
+
+
 def validate_translation(mod, tier, seed):
     """s3.4.1: recorder shadows vs native build, bit for bit, on the module's validation scripts."""
     n = 0
     mism = []
     for tu, script, decisions in mod.validation(tier, seed):
-        a = D.run(tu, script.text(decisions))
-        b = D.run(tu, script.text(decisions), native=True)
+        try:
+            a = D.run(tu, script.text(decisions))
+            b = D.run(tu, script.text(decisions), native=True)
+        except D.HarnessCrash as e:
+            # the library code aborts (assertion / signal) on a plain valid scenario: confirm with the native build and report it
+            import hashlib
+            n += 1
+            try:
+                D.run(tu, script.text(None), native=True)
+                native_crash, err2 = False, ''
+            except D.HarnessCrash as e2:
+                native_crash, err2 = True, e2.stderr
+            if not native_crash and not e.native:
+                mism.append({'tu': tu.name, 'out': '(recording build aborts, native build does not)', 'recorder': e.stderr[-300:], 'native': 'runs'})
+                continue
+            os.makedirs(O.REPLAY_DIR, exist_ok=True)
+            body = {'kind': 'crash', 'property': getattr(mod, 'ID', ''), 'obligation': 'translator validation scenario :: library code aborts on a valid scenario',
+                    'tu': O.tu_spec(tu), 'script': script.text(None), 'stderr': (err2 or e.stderr)[-600:]}
+            h = hashlib.sha256(json.dumps(body, sort_keys=True).encode()).hexdigest()[:12]
+            path = os.path.join(O.REPLAY_DIR, 'crash-%s.json' % h)
+            json.dump(body, open(path, 'w'), indent=1)
+            CRASHES.append({'name': body['obligation'] + ' (' + tu.name + ')', 'kind': 'crash', 'status': 'sat', 't': 0, 'confirmed': True, 'replay': path,
+                            'note': 'recording and native builds both abort: ' + (err2 or e.stderr)[-300:].replace('\n', ' ')})
+            continue
         n += 1
         for k, v in a.outv.items():
             w = b.outv.get(k)
@@ -123,7 +148,7 @@ def main(argv=None):
             print('  ... %d/%d tasks' % (d, n), flush=True)
     res = pool.run([('props.' + a.prop, t.get('fn', 'run_task'), t) for t in tasks], prog)
     # ---------------------------------------------------------------- aggregate
-    obs = []
+    obs = list(CRASHES)
     scen = 0
     queries = 0
     solver_s = 0.0
